@@ -4,7 +4,7 @@
    correspondence shards (C18/Corr.v).  Carrier: R; [cx] = R * R. *)
 From Coq Require Import Reals List Bool Arith.
 From Verif Require Import Base.Num Lib.Axis C18.Model C18.ModelW C18.ProofsGrid C18.ProofsDFT C18.ProofsCx
-  C18.ProofsAxis C18.ProofsFT C18.ProofsTrue C18.ProofsW.
+  C18.ProofsAxis C18.ProofsFT C18.ProofsTrue C18.ProofsHC C18.ProofsTrueHC C18.ProofsW.
 Import ListNotations.
 Local Open Scope R_scope.
 
@@ -171,3 +171,63 @@ Theorem wavelet_crop_restores_shape : forall n,
   crop_len (n + n mod 2) (crop_rule (n + n mod 2) n) = n.
 Proof. exact crop_restores. Qed.
 Print Assumptions wavelet_crop_restores_shape.
+
+(* ------------------------------------------------------------------ *)
+(* H1: half-complex, one line: np.fft.irfft(np.fft.rfft(x), n) = x for every REAL line of every
+   length n >= 1, even and odd (Hermitian extension of the kept n/2+1 entries). *)
+Theorem rfft_inverse_recovers_input : forall x : list (@cx R), Forall is_real x ->
+  irfft1 cis_true (length x) (rfft1 cis_true x) = x.
+Proof. exact rfft_roundtrip_true. Qed.
+Print Assumptions rfft_inverse_recovers_input.
+
+(* H2: half-complex N-d: DiscreteFourierTransformInverse(halfcomplex) o DiscreteFourierTransform(halfcomplex)
+   = id on real arrays of every shape (even and odd last transformed axis), every axes list.
+   [This is the transform as specified (irfftn WITH the target length); the current numpy
+   code path omits that length for odd sizes: finding dft-inverse-hc-odd-numpy, modelled by
+   dft_inverse_status.] *)
+Theorem dft_halfcomplex_inverse_recovers_input : forall (shape axes : list nat) (x : list (@cx R)),
+  axes <> [] -> (forall ax, In ax axes -> (ax < length shape)%nat) ->
+  (1 <= nth (last_axis axes) shape 0%nat)%nat -> length x = prodn shape -> Forall is_real x ->
+  dft_inverse cis_true 1 true shape axes (dft_forward cis_true (-1) true shape axes x) = x.
+Proof. exact dft_hc_roundtrip_true. Qed.
+Print Assumptions dft_halfcomplex_inverse_recovers_input.
+
+(* F2 (partial -- exactly the calls the code can execute): FourierTransform on a REAL space,
+   with or without half-complex, any shape/axes/sign, any shift pattern when not half-complex,
+   ALL axes shifted when half-complex: the inverse recovers the input. *)
+Theorem ft_real_inverse_recovers_input_partial : forall (g : list (@axis R)) (axes : list nat)
+    (shifts : list bool) (hc : bool) (sg : R) (x : list (@cx R)),
+  sg = 1 \/ sg = -1 -> (hc = true -> sg = -1) ->
+  axes <> [] -> length shifts = length axes ->
+  (hc = true -> all_true shifts = true) ->
+  (forall ax, In ax axes -> (ax < length g)%nat /\ (2 <= a_n (nth ax g dax))%nat /\ stride (nth ax g dax) <> 0) ->
+  length x = prodn (map a_n g) -> Forall is_real x ->
+  ft_inverse PI (sqrt (2 * PI)) cis_true (mk_ft g axes shifts (- sg) hc) true
+             (ft_forward PI (sqrt (2 * PI)) cis_true (mk_ft g axes shifts sg hc) x) = x.
+Proof. exact ft_roundtrip_real_true. Qed.
+Print Assumptions ft_real_inverse_recovers_input_partial.
+
+(* The FULL statement "for every half-complex option and shift choice the inverse recovers the
+   input" is FALSE of the faithful model: the code accepts half-complex with an unshifted
+   non-last axis at construction (only the last axis is checked) and then fails -- findings
+   ft-halfcomplex-unshifted-axis / ft-real-unshifted-pyfftw-inverse.  What the model (and the
+   code, by the correspondence) does on such a configuration: *)
+Theorem ft_halfcomplex_unshifted_refuted :
+  exists (shifts : list bool),
+    @ft_init_status R _ [mk_axis 0 3 4; mk_axis 0 4 5] [0; 1]%nat shifts true false = SOk
+    /\ ft_inverse_status false true true shifts = STypeErr      (* numpy: inverse raises *)
+    /\ ft_forward_status true true true shifts = SOtherErr.     (* pyfftw: forward raises *)
+Proof. exact ft_hc_unshifted_status. Qed.
+Theorem ft_real_unshifted_pyfftw_refuted :
+  exists (shifts : list bool),
+    ft_inverse_status true true false shifts = STypeErr /\ ft_inverse_status false true false shifts = SOk.
+Proof. exact ft_real_unshifted_status. Qed.
+(* DFT: the inverse onto a real space without half-complex is rejected by pyfftw, and the numpy
+   half-complex inverse rejects odd lengths (findings dft-inverse-real-nonhc-pyfftw,
+   dft-inverse-hc-odd-numpy) *)
+Theorem dft_inverse_current_code_refuted :
+  dft_inverse_status true true false true [4]%nat [0]%nat = SValueErr
+  /\ dft_inverse_status true true false false [4]%nat [0]%nat = SValueErr
+  /\ dft_inverse_status false true true false [5]%nat [0]%nat = SValueErr
+  /\ dft_inverse_status false true true false [4]%nat [0]%nat = SOk.
+Proof. exact dft_inverse_status_examples. Qed.
